@@ -9,6 +9,10 @@ Oracles (none calls the code it judges):
   copies   accessors/conversions documented as copies: no shared memory and writes do not travel in either direction
   ctor     unyt_array(ndarray) shares memory with the ndarray in every layout, data*unit does not
   coerce   expected numbers from the independent unit table (vf/ref): v_i * scale_i / scale_0 (affine for temperatures)
+  callform door (ndarray, ndarray subclass, unyt_array with/without units/name/custom registry/user unit, user subclasses, indexed
+           and viewed arrays, quantities) x constructor class x keyword sets that request no change (vf/gen/c16_ctorforms.py): the
+           constructor result is a live view of its input; the view converters and the copying calls in their no-change spellings
+           over the same doors, with NumPy's answer on the stripped data as reference for inherited calls
 The passive observer vf/monitors/c16_passive.py is installed around all of it (and, thorough tier, around the repository's
 own test-suite).
 """
@@ -16,6 +20,7 @@ import json, os, subprocess, sys, tempfile
 import numpy as np
 from vf import core
 from vf.gen import c16_ops as G
+from vf.gen import c16_ctorforms as CF
 from vf.monitors import taps, c16_passive as P
 from .common import chunks
 
@@ -25,7 +30,9 @@ RULE = ("one evaluation = one oracle decision on one returned object or one memo
         "and quantities; indexing/iteration results against NumPy's indexing of the stripped parent (shape, numbers, units, name, "
         "view/copy); view ops and unit-stripping accessors by shares_memory + write-through against the NumPy reference; copying "
         "accessors and every converting call by shares_memory + write isolation; constructor view / unit-multiplication copy over "
-        "memory layouts and dtypes; mixed-unit list coercion against vf/ref scales. distinct cell = (sub-monitor, operation or "
+        "memory layouts and dtypes; the same view/copy contract for every input door x constructor class x no-change keyword set (none, "
+        "each keyword value alone, all pairs; thorough: the full product) and for the no-change spellings of view converters and copying "
+        "calls; mixed-unit list coercion against vf/ref scales. distinct cell = (sub-monitor, operation or "
         "index form, operand kind, result shape class / dtype kind / layout)")
 ASSUMPTIONS = (
     "NumPy's own behaviour on the stripped operand (indexing result shape/values, whether a reshape/transpose/slice is a view) is the trusted reference",
@@ -42,6 +49,10 @@ ASSUMPTIONS = (
     "operations in which unyt has no code of its own share one key per (failure, operand kind): NumPy functions without a unyt handler (npfunc-default-path), C-level NumPy constructors (numpy-nodispatch-function), ndarray methods no unyt class overrides (inherited-ndarray-method); the coverage cell still names the operation",
     "a shaped unyt_quantity operand (only obtainable from an already reported violation or an explicit constructor call) propagating its class through further class-preserving calls is counted, not reported again",
     "name propagation is judged for indexing and iteration only (statement); conversions dropping the name (in_base) are not C16's subject",
+    "call forms: a constructor keyword given at a value that requests no change (dtype= the data's own dtype as np.dtype/name/type/str/char/python type, units= the input's own units as str/Unit/rebuilt Unit, registry=, bypass_validation=, name=, keyword argument style) must leave the constructor result a live view exactly like the bare call, for every input that already is array data (ndarray, ndarray subclass, unyt_array, user subclasses, quantities); keys name the constructor, the door and the keyword names, the value spellings go into the coverage cell",
+    "call forms not described by the statement are made and noted, not judged: dtype= naming another dtype (NumPy has to convert; unyt ignores it for unyt input), units= naming other units than a unyt input carries (relabelling); calls that are refused for a reason outside C16 are not made (a user-defined unit spelled as a string without its registry, bypass_validation=True without a Unit object)",
+    "0-d results of the no-change view converters (view(), .d/.ndview/ndarray_view(), reshape(()), transpose()) are judged for memory like any other shape; 0-d *indexing* results stay notes (see above)",
+    "for inherited NumPy calls in the no-change view matrix (reshape/transpose/astype(copy=False)/asanyarray/...) the same call on the stripped data in the same layout says whether a view is due; a copying call is judged unless its NumPy counterpart on the stripped data itself hands back shared memory (then noted; none seen)",
     "vf/ref/defs.py scales/offsets for m,cm,km,mm,inch,ft,mile,s,ms,min,hr,day,g,kg,lb,J,erg,kJ,K,degC,degF,R are the trusted base of the coercion oracle",
 )
 MIN_EVALS = 3000
@@ -74,6 +85,18 @@ def batches(tier, seed):
     b.append(("ctor/0", ("ctor", {"shapes": shapes, "dtypes": ["f8", "f4", "i8", "c16", "f2", "u1"] if thorough else ["f8", "i8"]})))
     for i in range(1 if not thorough else 4):
         b.append((f"coerce/{i}", ("coerce", {"n": 12 if not thorough else 100, "seed": seed, "part": i})))
+    # call forms: door x constructor x no-change keyword sets x layouts (empty shapes carry no memory to judge)
+    cshapes = [sh for sh in shapes if int(np.prod(sh)) > 0]
+    doors = list(CF.DOORS)
+    for i, c in enumerate(chunks(cshapes, 7 if not thorough else len(cshapes))):
+        for j, dch in enumerate(chunks(doors[:-2], 1 if not thorough else 3)):
+            dch = dch + (doors[-2:] if j == 0 else [])         # the quantity doors only exist for shape ()
+            b.append((f"callforms/{i}.{j}", ("callforms", {"shapes": c, "doors": dch, "dtypes": ["f8", "i8"] if not thorough else ["f8", "i8", "f4", "c16"],
+                                                           "specs": "quick", "nrandom": 8 if not thorough else 60, "seed": seed, "all_layouts": thorough})))
+    if thorough:                                 # the full product of keyword values on two shapes per batch
+        for i, c in enumerate(chunks([(), (1,), (3,), (2, 3), (1, 1), (2, 1, 3)], 3)):
+            for j, dch in enumerate(chunks(doors, 4)):
+                b.append((f"callforms-full/{i}.{j}", ("callforms", {"shapes": c, "doors": dch, "dtypes": ["f8", "i8"], "specs": "thorough", "nrandom": 0, "seed": seed})))
     nr = 4 if not thorough else 48
     for i in range(nr):
         b.append((f"random/{i}", ("random", {"seed": seed, "n": 150 if not thorough else 500})))
@@ -287,15 +310,17 @@ BASE_CALLS = [("in_base()", lambda x: x.in_base()), ("in_base(mks)", lambda x: x
               ("in_mks()", lambda x: x.in_mks()), ("in_base(galactic)", lambda x: x.in_base("galactic")), ("in_base(UnitSystem)", lambda x: x.in_base(__import__("unyt").unit_systems.mks_unit_system))]
 
 
-def probe_share(cx, tag, opname, p, r, expect, layout, owner=None):
+def probe_share(cx, tag, opname, p, r, expect, layout, owner=None, cellop=None):
     """p: parent (unyt or ndarray); r: result; expect: True (must share), False (must not), judged by shares_memory and by a
-    write probe in both directions.  Returns True when judged."""
+    write probe in both directions.  Returns True when judged.  cellop: finer operation name for the coverage cell (the key
+    keeps the structural opname)."""
     rec = cx.rec
+    cellop = cellop or opname
     pk = P.kind_of(p) if isinstance(p, cx.unyt.unyt_array) else "ndarray-" + P.shape_class(p.shape)
     dk = p.dtype.kind
     if not isinstance(r, np.ndarray):
         if expect is False:
-            rec.ok((tag, opname, pk, dk, layout, "python-scalar"))     # a python number cannot alias the parent
+            rec.ok((tag, cellop, pk, dk, layout, "python-scalar"))     # a python number cannot alias the parent
             return True
         rec.violation(f"C16:{tag}/{opname}:not-an-array:{pk}", f"{opname} returned {type(r).__name__}", {"op": opname})
         return True
@@ -332,7 +357,7 @@ def probe_share(cx, tag, opname, p, r, expect, layout, owner=None):
             rec.violation(f"C16:{tag}/{opname}:{kind}:{pk}", f"{opname} on a {pk} ({p.dtype}, shape {p.shape}): writing to the parent "
                           f"{'did not change' if expect else 'changed'} the result", case)
             return True
-    rec.ok((tag, opname, pk, dk, layout, "view" if expect else "copy"))
+    rec.ok((tag, cellop, pk, dk, layout, "view" if expect else "copy"))
     return True
 
 
@@ -609,6 +634,129 @@ def drive_ctor(cx, payload):
     rec.sample({"ctor": {"forms": [n for n, _ in ctor_forms], "mul_forms": [n for n, _ in mul_forms]}})
 
 
+# ------------------------------------------------------------------------------------------------ call forms: door x constructor/converter x keyword set
+ACCESSOR_FORMS = ("x.ndarray_view()", "x.d", "x.ndview")
+CALLFORM_KW_COUNTERS = tuple("callform.ctor_kw." + k for k in CF.KW_ORDER)
+
+
+def drive_callforms(cx, payload, bid):
+    """every door (what kind of array object is handed in) x every constructor class x keyword sets that request no change:
+    the constructor must return a live view of its input exactly as the bare call does; the view converters and the copying
+    calls in their no-change spellings over the same doors.  Reference for 'this request needs no conversion' and for the
+    view/copy status of inherited NumPy calls is NumPy's own answer on the stripped data."""
+    unyt, rec = cx.unyt, cx.rec
+    K = CF.Classes(unyt)
+    UA = K.UA
+    r = core.rng(payload["seed"], bid)
+    specs = CF.kw_specs(payload["specs"], r, nrandom=payload["nrandom"])
+    few = [s for s in specs if len(s) <= 1]                    # bare call and single keywords: all layouts
+    rot = 0
+    for shape in payload["shapes"]:
+        shape = tuple(shape)
+        lays = G.layouts(shape) + ["readonly"]
+        for dt in payload["dtypes"]:
+            def fresh(layout):
+                if layout == "readonly":
+                    a = G.values(shape, dt)
+                    a.flags.writeable = False
+                    return a
+                return G.ndarray_in_layout(shape, dt, layout)[0]
+            for dname in payload["doors"]:
+                probe = CF.door(K, dname, fresh("own"))
+                if probe is None:
+                    continue
+                rec.reach("door:" + dname)
+                unyt_door = isinstance(probe, UA)
+                # 1. the constructor matrix
+                for cname, cls in CF.ctor_classes(K, probe):
+                    rot += 1
+                    plan = [(sp, lay) for sp in few for lay in lays] + [(sp, lays[(i + rot) % len(lays)]) for i, sp in enumerate(specs) if len(sp) > 1]
+                    for spec, layout in plan:
+                        x = CF.door(K, dname, fresh(layout))
+                        args, kw, status = CF.realize(K, x, spec)
+                        if status.startswith("skip"):
+                            rec.count("callform.ctor_not_applicable")
+                            continue
+                        names = CF.spec_names(spec)
+                        op = f"{cname}({dname})[{names}]"
+                        try:
+                            res = cls(*args, **kw)
+                        except Exception as e:
+                            rec.note(f"callform-ctor-raises:{cname}({dname})[{names}]:{type(e).__name__}")
+                            rec.count("callform.ctor_raised")
+                            continue
+                        if status.startswith("note"):
+                            rec.note(f"callform-ctor-not-judged:{status[5:]}:{'unyt' if unyt_door else 'ndarray'}-input:" + ("shares" if P.shares(res, x) else "detached"))
+                            rec.count("callform.ctor_noted")
+                            continue
+                        pk = P.kind_of(x) if unyt_door else "ndarray-" + P.shape_class(x.shape)
+                        if not isinstance(res, UA):
+                            rec.violation(f"C16:ctorkw/{op}:not-unyt:{pk}", f"{cname}({dname}, {CF.spec_values(spec)}) returned {type(res).__name__}", {"op": op, "spec": spec})
+                            continue
+                        if isinstance(res, K.UQ) and res.size > 1:
+                            rec.violation(f"C16:ctorkw/{op}:multi-element-quantity:{pk}", f"{cname}({dname}, {CF.spec_values(spec)}) returned a quantity of shape {res.shape}", {"op": op, "spec": spec})
+                            continue
+                        if res.shape != x.shape or res.dtype != x.dtype:
+                            rec.violation(f"C16:ctorkw/{op}:shape-or-dtype:{pk}", f"{cname}({dname}, {CF.spec_values(spec)}): no change requested but {x.shape}/{x.dtype} became {res.shape}/{res.dtype}",
+                                          {"op": op, "spec": spec, "layout": layout})
+                            continue
+                        if probe_share(cx, "ctorkw", op, x, res, True, layout, cellop=f"{cname}({dname})[{CF.spec_values(spec)}]"):
+                            rec.count("callform.ctor_judged")
+                            for k in spec:
+                                rec.count("callform.ctor_kw." + k)
+                            if unyt_door and "dtype" in spec:
+                                rec.count("callform.ctor_unyt_input_dtype_kw")
+                            if unyt_door and len(spec) >= 2:
+                                rec.count("callform.ctor_unyt_input_kw_pairs")
+                            if "subclass" in dname or "subclass" in cname:
+                                rec.count("callform.ctor_subclass")
+                if not unyt_door:
+                    continue
+                # 2. view converters / 3. copying calls in their no-change spellings; quick tier: three layouts per (shape, dtype,
+                # door), rotating so that every layout meets every door; thorough: all layouts
+                rot += 1
+                for layout in (lays if payload.get("all_layouts") else sorted({lays[(rot + k * 3) % len(lays)] for k in range(3)})):
+                    for tag, forms, counter in (("viewkw", CF.VIEW_FORMS, "callform.view_judged"), ("copykw", CF.COPY_FORMS, "callform.copy_judged")):
+                        for name, fn in forms:
+                            if shape == () and name.startswith("x["):
+                                rec.note("memory-not-judged-0d-index-result")
+                                continue
+                            bare = fresh(layout)
+                            if name in ACCESSOR_FORMS or tag == "copykw":
+                                exp = tag == "viewkw"                     # stated by the property itself
+                                try:
+                                    ref = fn(bare)
+                                    if isinstance(ref, np.ndarray) and P.shares(ref, bare) != exp and tag == "copykw":
+                                        rec.note(f"copy-form-numpy-reference-shares:{name}")
+                                        continue
+                                except Exception:
+                                    pass                                  # a unyt-only call: no NumPy counterpart
+                            else:
+                                try:
+                                    ref = fn(bare)
+                                except Exception:
+                                    rec.count("callform.view_form_not_applicable")
+                                    continue
+                                if not isinstance(ref, np.ndarray):
+                                    continue
+                                exp = P.shares(ref, bare)
+                            x = CF.door(K, dname, fresh(layout))
+                            try:
+                                res = fn(x)
+                            except Exception as e:
+                                rec.note(f"callform-{tag}-raises:{name}({dname}):{type(e).__name__}")
+                                continue
+                            if res is None:
+                                continue
+                            rec.reach(f"{tag}:{name}")
+                            if probe_share(cx, tag, f"{name}({dname})", x, res, exp, layout):
+                                rec.count(counter)
+                                if "subclass" in dname:
+                                    rec.count("callform.converter_subclass")
+    rec.sample({"callforms": {"shapes": [list(s) for s in payload["shapes"]], "doors": payload["doors"], "kw_specs": len(specs), "view_forms": len(CF.VIEW_FORMS),
+                              "copy_forms": len(CF.COPY_FORMS)}})
+
+
 # ------------------------------------------------------------------------------------------------ coercion of mixed-unit lists
 COERCE_FAMILIES = {
     "length": ["m", "cm", "km", "mm", "inch", "ft", "mile"], "time": ["s", "ms", "min", "hr", "day"], "mass": ["g", "kg", "lb"],
@@ -876,6 +1024,8 @@ def worker(batch, rec):
             drive_suite(cx, payload)
         elif kind == "npcat":
             drive_npcat(cx, payload, bid)
+        elif kind == "callforms":
+            drive_callforms(cx, payload, bid)
     finally:
         cx.close()
 
@@ -884,7 +1034,9 @@ DECIDING = ("passive.getitem.judged_objects", "passive.ufunc.judged_objects", "p
             "passive.unitop.judged_objects", "passive.active.judged_objects", "passive.iter.judged_objects", "iteration.protocols", "index.driven",
             "views.judged", "accessor_views.judged", "copies.judged", "conversions.judged", "ctor_views.judged", "unit_mul_copies.judged",
             "quantity_ctor.judged", "coerce.judged", "random.chain_steps", "passive.getitem.memory_probes", "passive.conv.memory_probes",
-            "passive.unitop.memory_probes", "passive.function.view_probes")
+            "passive.unitop.memory_probes", "passive.function.view_probes",
+            "callform.ctor_judged", "callform.ctor_unyt_input_dtype_kw", "callform.ctor_unyt_input_kw_pairs", "callform.ctor_subclass", "callform.converter_subclass",
+            "callform.view_judged", "callform.copy_judged") + CALLFORM_KW_COUNTERS
 
 
 def extra(tier, seed, results):
